@@ -406,6 +406,64 @@ theorem C12_json_store_utf8 {stg tgt : α} (hne : stg ≠ tgt) (v : JV) (hv : v.
   obtain ⟨b, hb⟩ := Option.isSome_iff_exists.mp ((C12_utf8_domain _).mpr hdom)
   exact C12_json_store jsonSer jsonSer_roundtrip jsonSer_noCR utf8 utf8_roundtrip hne ⟨v, hv⟩ [render jsonGenOpts 0 v] b fs rfl hb
 
+/-- the same for EVERY text codec that round-trips and accepts printable ASCII and the line feed (json's text is nothing else,
+    `C12_json_text_ascii`): which `encoding=` the store is given does not matter -/
+theorem C12_json_store_any_codec (e : Encoding) (he : e.Roundtrip)
+    (hacc : ∀ s : TextCodec.Str, (∀ c ∈ s, c = 10 ∨ (32 ≤ c ∧ c ≤ 126)) → (e.enc s).isSome = true)
+    {stg tgt : α} (hne : stg ≠ tgt) (v : JV) (hv : v.ok = true) (fs : FS α) :
+    readValue (jsonCodec jsonSer e posix Gen.TextCodec.jsonWriteNewline Gen.TextCodec.jsonReadNewline)
+      (writeValue jsonFileStore (jsonCodec jsonSer e posix Gen.TextCodec.jsonWriteNewline Gen.TextCodec.jsonReadNewline)
+        true stg tgt ⟨v, hv⟩ fs).fs tgt = some ⟨v, hv⟩ := by
+  have hasc : ∀ c ∈ ([render jsonGenOpts 0 v] : List TextCodec.Str).flatten, c = 10 ∨ (32 ≤ c ∧ c ≤ 126) := by
+    intro c hc
+    simp only [List.flatten_cons, List.flatten_nil, List.append_nil] at hc
+    exact jsonSer_ascii ⟨v, hv⟩ c hc
+  obtain ⟨b, hb⟩ := Option.isSome_iff_exists.mp (hacc _ hasc)
+  exact C12_json_store jsonSer jsonSer_roundtrip jsonSer_noCR e he hne ⟨v, hv⟩ [render jsonGenOpts 0 v] b fs rfl hb
+
+theorem encodeWith_isSome (f : Nat → Option Bytes) (s : TextCodec.Str) (h : ∀ c ∈ s, (f c).isSome = true) :
+    (encodeWith f s).isSome = true := by
+  induction s with
+  | nil => rfl
+  | cons c r ih =>
+    have h1 := h c (by simp)
+    have h2 := ih (fun d hd => h d (by simp [hd]))
+    simp only [encodeWith]
+    cases hc : f c <;> cases hr : encodeWith f r <;> simp_all
+
+/-- **JsonFileStore(path, encoding="utf-16")** and **encoding="latin-1"**: no assumption left either -/
+theorem C12_json_store_utf16 {stg tgt : α} (hne : stg ≠ tgt) (v : JV) (hv : v.ok = true) (fs : FS α) :
+    readValue (jsonCodec jsonSer utf16 posix Gen.TextCodec.jsonWriteNewline Gen.TextCodec.jsonReadNewline)
+      (writeValue jsonFileStore (jsonCodec jsonSer utf16 posix Gen.TextCodec.jsonWriteNewline Gen.TextCodec.jsonReadNewline)
+        true stg tgt ⟨v, hv⟩ fs).fs tgt = some ⟨v, hv⟩ := by
+  refine C12_json_store_any_codec utf16 utf16_roundtrip ?_ hne v hv fs
+  intro s hs
+  have : (encodeWith utf16Char s).isSome = true := by
+    apply encodeWith_isSome
+    intro c hc
+    have := hs c hc
+    unfold utf16Char isSurrogate
+    rw [if_pos (by omega)]
+    have h2 : (decide (0xD800 ≤ c) && decide (c ≤ 0xDFFF)) = false := by simp; omega
+    simp [h2]
+  simp only [utf16, utf16Enc]
+  cases h : encodeWith utf16Char s
+  · rw [h] at this; cases this
+  · rfl
+
+theorem C12_json_store_latin1 {stg tgt : α} (hne : stg ≠ tgt) (v : JV) (hv : v.ok = true) (fs : FS α) :
+    readValue (jsonCodec jsonSer latin1 posix Gen.TextCodec.jsonWriteNewline Gen.TextCodec.jsonReadNewline)
+      (writeValue jsonFileStore (jsonCodec jsonSer latin1 posix Gen.TextCodec.jsonWriteNewline Gen.TextCodec.jsonReadNewline)
+        true stg tgt ⟨v, hv⟩ fs).fs tgt = some ⟨v, hv⟩ := by
+  refine C12_json_store_any_codec latin1 latin1_roundtrip ?_ hne v hv fs
+  intro s hs
+  simp only [latin1, List.all_eq_true, decide_eq_true_eq]
+  rw [if_pos]
+  · rfl
+  · intro c hc
+    have := hs c hc
+    omega
+
 end Json
 
 
